@@ -65,6 +65,19 @@ class ClassInfo(object):
                 for t in st.targets:
                     if isinstance(t, ast.Name):
                         self.attrs[t.id] = st.value
+        # `name = function` in a class body, the function being defined at
+        # module level or earlier in the body: the method is that function
+        # (e.g. one __init__ shared by two classes)
+        defs = {}
+        for st in module.tree.body if hasattr(module, 'tree') else []:
+            if isinstance(st, ast.FunctionDef):
+                defs[st.name] = st
+        for k, v in list(self.attrs.items()):
+            if isinstance(v, ast.Name):
+                tgt = self.attrs.get(v.id) if isinstance(
+                    self.attrs.get(v.id), ast.FunctionDef) else defs.get(v.id)
+                if isinstance(tgt, ast.FunctionDef):
+                    self.attrs[k] = tgt
 
     def __repr__(self):
         return '<class %s>' % self.qn
